@@ -2,7 +2,10 @@ CFG = {'assumptions': ["64*len(bm) < 2^31 (Go's int32 positions cannot overflow;
                  'every word is in [0,2^64) (words_ok)',
                  'domain of the property: 0 <= i <= end <= 64*len(bm), i < 64*len(bm); PrevOne additionally end >= 1'],
  'files': ['bitmap/next.go', 'bitmap/mask.go'],
- 'go': {'bitmap.Next/ToArray': 'the two walks over the whole bitmap and bitmap.ToArray',
+ 'go': {'bitmap.Next/Get1': 'NextOne, PrevOne and bitmap.Get1 at the positions they return',
+        'bitmap.Next/ToArray': 'the two walks over the whole bitmap and bitmap.ToArray',
+        'bitmap.Next/count': 'rounds of the two walks of [i,end) and bitmap.Rank64(end) - bitmap.Rank64(i) over '
+                             'bitmap.IndexRank64(bm, trailing)',
         'bitmap.Next/held': 'bitmap.NextOne / bitmap.PrevOne: a list of queries on ONE slice, run twice, slice '
                             'compared with a copy',
         'bitmap.NextOne': 'bitmap.NextOne',
